@@ -1,6 +1,7 @@
 import Driver.Util
 import ClairModel.Model.Codec
 import ClairModel.Model.ReportJson
+import ClairModel.Model.Duration
 import ClairModel.Model.Cpe
 import ClairModel.Gen.Enums
 
@@ -202,8 +203,20 @@ def recordsOf (j : J) : String :=
       let l := recs.foldl (fun acc r => insertStr (showRecord r) acc) []
       s!"ok {recs.length} " ++ ",".intercalate l
 
+/-- `uint64(float64(f) * (float64(unit) / scale))` in IEEE doubles, as time.ParseDuration computes it. -/
+def fracMulFloat (f unit k : Nat) : Nat :=
+  (Float.ofNat f * (Float.ofNat unit / Float.ofNat (10 ^ k))).toUInt64.toNat
+
 def answer (l : String) : String :=
   match Driver.words l with
+  | ["dur-m", v] => match v.toInt? with
+      | some d => hexB (ClairModel.Duration.durationString d)
+      | none => "bad-op"
+  | ["dur-un", o, h] => match o.toInt?, toBytes h with
+      | some old, some t =>
+        let r := ClairModel.Duration.durationUnmarshal fracMulFloat old t
+        s!"{if r.2 then "ok" else "err"} {r.1}"
+      | _, _ => "bad-op"
   | ["js", ty, w] => match parseTree w with
       | some j => jsRoundTrip ty j
       | none => "bad-op"
